@@ -1016,6 +1016,313 @@ class SymStr:
         return "<symstr>"
 
 
+class CharStr:
+    """Bounded string as a python list of char codes (python ints or SymInt): concrete
+    length, symbolic characters.  Every predicate is a finite formula over linear integer
+    arithmetic, so z3 decides each fork instantly (hand-unrolled bounded encoding); operations
+    whose result length depends on the characters (rfind, split, strip) fork over positions."""
+    __slots__ = ("c",)
+
+    def __init__(self, codes):
+        if isinstance(codes, str):
+            codes = [ord(ch) for ch in codes]
+        self.c = list(codes)
+
+    # -- helpers -----------------------------------------------------------------------
+    @staticmethod
+    def _codes(o):
+        if isinstance(o, CharStr):
+            return o.c
+        if isinstance(o, str):
+            return [ord(ch) for ch in o]
+        return None
+
+    @staticmethod
+    def _eqc(a, b):
+        """equality of two codes -> python bool or z3 Bool"""
+        if isinstance(a, int) and isinstance(b, int):
+            return a == b
+        return _as_int_term(a) == _as_int_term(b)
+
+    @staticmethod
+    def _conj(parts):
+        zs = []
+        for p_ in parts:
+            if p_ is False:
+                return False
+            if p_ is True:
+                continue
+            zs.append(p_)
+        if not zs:
+            return True
+        return SymBool(z3.And(*zs) if len(zs) > 1 else zs[0])
+
+    @staticmethod
+    def _disj(parts):
+        zs = []
+        for p_ in parts:
+            if p_ is True:
+                return True
+            if p_ is False:
+                continue
+            zs.append(p_.z if isinstance(p_, SymBool) else p_)
+        if not zs:
+            return False
+        return SymBool(z3.Or(*zs) if len(zs) > 1 else zs[0])
+
+    def _match_at(self, pos, codes):
+        if pos < 0 or pos + len(codes) > len(self.c):
+            return False
+        return self._conj([self._eqc(self.c[pos + i], codes[i]) for i in range(len(codes))])
+
+    def concrete(self):
+        """python str if all characters are concrete else None"""
+        out = []
+        for ch in self.c:
+            ch = _const_or_self(ch)
+            if not isinstance(ch, int):
+                return None
+            out.append(chr(ch))
+        return "".join(out)
+
+    # -- str protocol ------------------------------------------------------------------
+    def __len__(self):
+        return len(self.c)
+
+    def __bool__(self):
+        return len(self.c) > 0
+
+    def __iter__(self):
+        return iter(CharStr([x]) for x in self.c)
+
+    def __eq__(self, o):
+        oc = self._codes(o)
+        if oc is None or len(oc) != len(self.c):
+            return False
+        return self._match_at(0, oc)
+
+    def __ne__(self, o):
+        r = self.__eq__(o)
+        return ~r if isinstance(r, SymBool) else (not r)
+
+    def __hash__(self):
+        s_ = self.concrete()
+        if s_ is not None:
+            return hash(s_)
+        _unsupported("hash(CharStr) - swap the dict/set for a SymMap/SymSet proxy")
+
+    def __add__(self, o):
+        oc = self._codes(o)
+        if oc is None:
+            return NotImplemented
+        return CharStr(self.c + list(oc))
+
+    def __radd__(self, o):
+        oc = self._codes(o)
+        if oc is None:
+            return NotImplemented
+        return CharStr(list(oc) + self.c)
+
+    def __mul__(self, n):
+        return CharStr(self.c * n)
+
+    def __getitem__(self, i):
+        if isinstance(i, slice):
+            a = None if i.start is None else _to_index(i.start)
+            b = None if i.stop is None else _to_index(i.stop)
+            return CharStr(self.c[slice(a, b, i.step)])
+        return CharStr([self.c[_to_index(i)]])
+
+    def lower(self):
+        out = []
+        for ch in self.c:
+            if isinstance(ch, int):
+                out.append(ord(chr(ch).lower()) if ch < 128 else ch)
+            else:
+                t = _as_int_term(ch)
+                out.append(SymInt(z3.If(z3.And(t >= 65, t <= 90), t + 32, t)))
+        return CharStr(out)
+
+    def upper(self):
+        out = []
+        for ch in self.c:
+            if isinstance(ch, int):
+                out.append(ord(chr(ch).upper()) if ch < 128 else ch)
+            else:
+                t = _as_int_term(ch)
+                out.append(SymInt(z3.If(z3.And(t >= 97, t <= 122), t - 32, t)))
+        return CharStr(out)
+
+    def endswith(self, suf):
+        if isinstance(suf, tuple):
+            return self._disj([self.endswith(x) for x in suf])
+        sc = self._codes(suf)
+        return self._match_at(len(self.c) - len(sc), sc)
+
+    def startswith(self, pre, start=0):
+        if isinstance(pre, tuple):
+            return self._disj([self.startswith(x, start) for x in pre])
+        return self._match_at(start, self._codes(pre))
+
+    def _contains(self, sub):
+        sc = self._codes(sub)
+        if len(sc) == 0:
+            return True
+        return self._disj([self._match_at(i, sc) for i in range(len(self.c) - len(sc) + 1)])
+
+    def __contains__(self, sub):
+        return bool(self._contains(sub))
+
+    def find(self, sub, start=0, end=None):
+        sc = self._codes(sub)
+        end = len(self.c) if end is None else end
+        for i in range(start, end - len(sc) + 1):
+            if self._match_at(i, sc):
+                return i
+        return -1
+
+    def rfind(self, sub, start=0, end=None):
+        sc = self._codes(sub)
+        end = len(self.c) if end is None else end
+        for i in range(end - len(sc), start - 1, -1):
+            if self._match_at(i, sc):
+                return i
+        return -1
+
+    def index(self, sub, *a):
+        r = self.find(sub, *a)
+        if r < 0:
+            raise ValueError("substring not found")
+        return r
+
+    def count(self, sub):
+        sc = self._codes(sub)
+        n, i = 0, 0
+        while i <= len(self.c) - len(sc):
+            if self._match_at(i, sc):
+                n += 1
+                i += max(len(sc), 1)
+            else:
+                i += 1
+        return n
+
+    def split(self, sep=None, maxsplit=-1):
+        if sep is None:
+            _unsupported("CharStr.split() on whitespace")
+        out, start, i = [], 0, 0
+        sc = self._codes(sep)
+        while i <= len(self.c) - len(sc):
+            if (maxsplit < 0 or len(out) < maxsplit) and self._match_at(i, sc):
+                out.append(CharStr(self.c[start:i]))
+                i += len(sc)
+                start = i
+            else:
+                i += 1
+        out.append(CharStr(self.c[start:]))
+        return out
+
+    def rsplit(self, sep=None, maxsplit=-1):
+        if sep is None:
+            _unsupported("CharStr.rsplit() on whitespace")
+        sc = self._codes(sep)
+        out, end, i = [], len(self.c), len(self.c) - len(sc)
+        while i >= 0:
+            if (maxsplit < 0 or len(out) < maxsplit) and self._match_at(i, sc):
+                out.append(CharStr(self.c[i + len(sc):end]))
+                end = i
+                i -= len(sc)
+            else:
+                i -= 1
+        out.append(CharStr(self.c[:end]))
+        return out[::-1]
+
+    def rpartition(self, sep):
+        i = self.rfind(sep)
+        if i < 0:
+            return CharStr([]), CharStr([]), self
+        n = len(self._codes(sep))
+        return CharStr(self.c[:i]), CharStr(self.c[i:i + n]), CharStr(self.c[i + n:])
+
+    def partition(self, sep):
+        i = self.find(sep)
+        if i < 0:
+            return self, CharStr([]), CharStr([])
+        n = len(self._codes(sep))
+        return CharStr(self.c[:i]), CharStr(self.c[i:i + n]), CharStr(self.c[i + n:])
+
+    _WS = (32, 9, 10, 11, 12, 13)
+
+    def _is_ws(self, ch, chars):
+        codes = self._WS if chars is None else [ord(x) for x in chars]
+        return self._disj([self._eqc(ch, w) for w in codes])
+
+    def lstrip(self, chars=None):
+        i = 0
+        while i < len(self.c) and self._is_ws(self.c[i], chars):
+            i += 1
+        return CharStr(self.c[i:])
+
+    def rstrip(self, chars=None):
+        j = len(self.c)
+        while j > 0 and self._is_ws(self.c[j - 1], chars):
+            j -= 1
+        return CharStr(self.c[:j])
+
+    def strip(self, chars=None):
+        return self.lstrip(chars).rstrip(chars)
+
+    def replace(self, old, new):
+        oc, nc = self._codes(old), self._codes(new)
+        out, i = [], 0
+        while i < len(self.c):
+            if len(oc) and self._match_at(i, oc):
+                out.extend(nc)
+                i += len(oc)
+            else:
+                out.append(self.c[i])
+                i += 1
+        return CharStr(out)
+
+    def join(self, parts):
+        out = []
+        for k, p_ in enumerate(parts):
+            if k:
+                out.extend(self.c)
+            out.extend(self._codes(p_))
+        return CharStr(out)
+
+    def isdigit(self):
+        if not self.c:
+            return False
+        return self._conj([(SymInt(_as_int_term(ch)) >= 48).z if not isinstance(ch, int) else (48 <= ch <= 57)
+                           for ch in self.c] +
+                          [(SymInt(_as_int_term(ch)) <= 57).z if not isinstance(ch, int) else True
+                           for ch in self.c])
+
+    def encode(self, *a, **k):
+        s_ = self.concrete()
+        if s_ is None:
+            _unsupported("CharStr.encode with symbolic characters")
+        return s_.encode(*a, **k)
+
+    def __str__(self):
+        s_ = self.concrete()
+        return s_ if s_ is not None else "<charstr>"
+
+    def __repr__(self):
+        s_ = self.concrete()
+        return repr(s_) if s_ is not None else "<charstr len=%d>" % len(self.c)
+
+    def __format__(self, spec):
+        return str(self)
+
+    def __fspath__(self):
+        s_ = self.concrete()
+        if s_ is None:
+            _unsupported("os.fspath(CharStr)")
+        return s_
+
+
 class SymMap:
     """dict stand-in keyed by concrete str/int whose lookups accept symbolic keys
     (one fork per key compared, in insertion order)."""
@@ -1024,8 +1331,27 @@ class SymMap:
         self.d = dict(d)
 
     def _find(self, k):
-        if isinstance(k, (str, int, bytes)) and not isinstance(k, (SymStr, SymInt)):
+        if isinstance(k, (str, int, bytes)):
             return (True, self.d[k]) if k in self.d else (False, None)
+        if isinstance(k, CharStr):
+            ks = k.concrete()
+            if ks is not None:
+                return (True, self.d[ks]) if ks in self.d else (False, None)
+            for kk, vv in self.d.items():
+                if isinstance(kk, str) and len(kk) == len(k.c) and (k == kk):
+                    k.c = [ord(ch) for ch in kk]   # sound on this path: pc contains k == kk
+                    return True, vv
+            return False, None
+        if isinstance(k, SymStr):
+            keys = [kk for kk in self.d if isinstance(kk, str)]
+            if not keys:
+                return False, None
+            # one fork "is it any key", then enumerate only the FEASIBLE keys from models
+            if not _CUR.decide(z3.Or(*[k.z == z3.StringVal(kk) for kk in keys])):
+                return False, None
+            val = _CUR.concretize(k.z)
+            k.z = z3.StringVal(val)   # sound on this path: pc now contains k == val
+            return True, self.d[val]
         for kk, vv in self.d.items():
             if k == kk:
                 return True, vv
@@ -1067,6 +1393,11 @@ class SymSet:
         self.s = list(s)
 
     def __contains__(self, k):
+        if isinstance(k, CharStr):
+            ks = k.concrete()
+            if ks is not None:
+                return ks in self.s
+            return bool(CharStr._disj([k == x for x in self.s if isinstance(x, str) and len(x) == len(k.c)]))
         if isinstance(k, SymStr):
             return bool(SymBool(z3.Or(*[k.z == z3.StringVal(x) for x in self.s]) if self.s else z3.BoolVal(False)))
         if isinstance(k, (SymInt, SymBV)):
@@ -1267,6 +1598,10 @@ class SymCtx(_Base):
     def fresh_bytes(self, name, n):
         return SymBytes([self.fresh_bv(f"{name}[{i}]", 8) for i in range(n)])
 
+    def fresh_chars(self, name, n, lo=1, hi=127):
+        """string of concrete length n with symbolic characters (codes in [lo,hi])"""
+        return CharStr([self.fresh_int(f"{name}[{i}]", lo, hi) for i in range(n)])
+
     def choice(self, name, n):
         """symbolic int in [0,n) consumed concretely (harness-side fork)"""
         v = self.fresh_int(name, 0, n - 1)
@@ -1365,6 +1700,8 @@ class SymCtx(_Base):
         z = z3.simplify(z)
         if z3.is_int_value(z) or z3.is_bv_value(z):
             return z.as_long()
+        if z3.is_string_value(z):
+            return z.as_string()
         self.note("concretized")
         while True:
             i = len(self.trace)
@@ -1385,7 +1722,7 @@ class SymCtx(_Base):
                     raise PathAbort()
                 mv = self.solver.model().eval(probe, model_completion=True)
                 self.solver.pop()
-                val = mv.as_long()
+                val = mv.as_string() if z3.is_string_value(mv) else mv.as_long()
                 c = (z == mv)
                 self.run.cond_cache[tuple(t for _, t in self.trace)] = (c, val)
             if self.decide_raw(c):
@@ -1515,6 +1852,9 @@ class ConcreteCtx(_Base):
 
     def fresh_bytes(self, name, n):
         return bytes(self.fresh_bv(f"{name}[{i}]", 8) for i in range(n))
+
+    def fresh_chars(self, name, n, lo=1, hi=127):
+        return "".join(chr(self.fresh_int(f"{name}[{i}]", lo, hi)) for i in range(n))
 
     def choice(self, name, n):
         return self.fresh_int(name, 0, n - 1)
